@@ -50,7 +50,10 @@ def deep_doc(n):
 DOCS = {
     "ascii": [{"k": [{"a": 1}, {"a": 2, "b": "xb"}, {"a": "ab"}], "a": [1, 2.5, None, True], "s": "b"}, [1, "ab", {"a": [{"a": 3}]}],
               # any JSON value is a document: empty containers and scalars at the top level
-              b"[]", b"{}", b"0", b"false", b"null", b'""', b"0.0", b"[0]", b'"ab"', b"true", b" [ ] "],
+              b"[]", b"{}", b"0", b"false", b"null", b'""', b"0.0", b"[0]", b'"ab"', b"true", b" [ ] ",
+              # grammatical JSON numbers beyond the range of a double (the decoder makes them infinities), huge integers
+              b'{"a": 1e400, "k": [{"a": -1e999}, {"a": 2e308, "b": "xb"}], "s": 1E+400}', b"[1e400, -1E+999]",
+              b'{"a": 123456789012345678901234567890, "k": [{"a": 1e-400}]}'],
     "nonascii": [{"k": [{"a": "é"}, {"a": "😀b"}, {"a": 7}], "a": "ü ", "ñ": {"a": "b"}},
                  # valid JSON may carry an unpaired surrogate escape
                  b'{"k": [{"a": "x\\ud83dy"}, {"a": "\\u00e9"}], "a": "\\udc00b"}'],
